@@ -1,7 +1,7 @@
 /-
   C18 — ITS token deployment flows consume authority once and issue one token per id.
 -/
-import Axelar.Proofs.ItsMonad
+import Axelar.Proofs.GwHistory
 import Axelar.Proofs.TokenManagerProofs
 namespace Axelar.Props.C18
 open Axelar Axelar.ItsW Axelar.Its Codec
@@ -101,6 +101,131 @@ theorem inbound_step1_only_reads_the_approval (C : Crypto) (cx : ICtx) (a b c d 
           all_goals (first | (cases hg; done) | skip)
           all_goals (first | (injection hg with hg; injection hg with hg _; exact hg.symm) | skip)
           all_goals simp_all
+
+
+/-- step 1 reads exactly the approval for (source chain, message id, source address, THIS
+    service, payload hash) -/
+theorem inbound_step1_reads_the_exact_approval (C : Crypto) (cx : ICtx) (a b c d : Bytes) (t t1 : Tx)
+    (hk : t.w.kind t.w.its.gateway = some .gateway)
+    (h : gatewayIsApproved C cx a b c d t = some (true, t1)) :
+    t.w.gw.messages (a, b) = .approved (Gateway.messageHash C a b c cx.self d) := by
+  simp only [gatewayIsApproved, run_bind, run_getI] at h
+  cases hs : subcall C cx t.w.its.gateway "isMessageApproved" 0 [] [a, b, c, cx.self, d] t with
+  | none => simp [hs] at h
+  | some x =>
+    obtain ⟨rs, tt⟩ := x
+    simp only [hs, run_pure, Option.some.injEq, Prod.mk.injEq] at h
+    obtain ⟨hrs, rfl⟩ := h
+    have hrs' : rs = [encBool true] := by simpa using hrs
+    unfold subcall at hs
+    cases hp : World.pay t.w cx.self t.w.its.gateway 0 [] with
+    | none => simp [hp] at hs
+    | some w1 =>
+      simp only [hp] at hs
+      obtain ⟨g1, g2, _, _⟩ := World.pay_gw _ _ _ _ _ _ hp
+      cases hc : World.callOther C w1 cx.self t.w.its.gateway "isMessageApproved" 0 [] [a, b, c, cx.self, d] with
+      | none => simp [hc] at hs
+      | some rr =>
+        obtain ⟨w2, rs2, evs, pd⟩ := rr
+        simp only [hc, Option.some.injEq, Prod.mk.injEq] at hs
+        obtain ⟨rfl, rfl⟩ := hs
+        unfold World.callOther at hc
+        rw [g2, hk] at hc
+        simp only [ne_eq, not_true_eq_false, decide_false, List.isEmpty_nil, Bool.not_true, Bool.or_self,
+          Bool.false_eq_true, if_false] at hc
+        cases hg : Gateway.call C w1.gw ⟨cx.self, w1.owner t.w.its.gateway, w1.now⟩ "isMessageApproved" [a, b, c, cx.self, d] with
+        | error e => simp [hg] at hc
+        | ok v =>
+          obtain ⟨gw', rs3, evs3⟩ := v
+          simp only [hg, Option.some.injEq, Prod.mk.injEq] at hc
+          obtain ⟨_, rfl, _, _⟩ := hc
+          rw [← g1]
+          obtain ⟨_, hres⟩ := Gateway.isMessageApproved_call C _ _ _ _ _ _ _ _ _ _ hg
+          rw [hrs'] at hres
+          simp only [List.cons.injEq, and_true] at hres
+          cases hb : Gateway.isMessageApproved C w1.gw a b c cx.self d
+          · rw [hb] at hres; simp [encBool] at hres
+          · simpa [Gateway.isMessageApproved] using hb
+
+/-! ### One issuance per message, over every schedule -/
+
+/-- **Nothing happens without the approval, and the issuing step consumes it**: a deploy-token
+    message makes progress only if the gateway holds the approval for exactly its fields
+    addressed to the service; the manager-creating step leaves the gateway untouched; the
+    issuing step leaves the message `Executed`. -/
+theorem deploy_message_step (C : Crypto) (cx : ICtx) (sc mid sa ph payload : Bytes) (t t' : Tx) (d : Abi.Deploy)
+    (hd : Abi.Deploy.decode payload = .ok d) (hk : t.w.kind t.w.its.gateway = some .gateway)
+    (h : processDeployInterchainToken C cx sc mid sa ph payload t = some ((), t')) :
+    t.w.gw.messages (sc, mid) = .approved (Gateway.messageHash C sc mid sa cx.self ph) ∧
+    ((t.w.its.tmAddress d.tokenId = [] ∧ t'.w.gw = t.w.gw) ∨
+     (t.w.its.tmAddress d.tokenId ≠ [] ∧ t'.w.gw.messages (sc, mid) = .executed)) := by
+  simp only [processDeployInterchainToken, hd, run_bind, run_getI] at h
+  by_cases he : (t.w.its.tmAddress d.tokenId).isEmpty = true
+  · -- step 1
+    simp only [he, if_true, run_require] at h
+    by_cases hz : (cx.egld == 0) = true
+    · simp only [hz, run_bind, run_require, if_true] at h
+      cases hv : gatewayIsApproved C cx sc mid sa ph t with
+      | none => simp [hv] at h
+      | some x =>
+        obtain ⟨ok, t1⟩ := x
+        simp only [hv] at h
+        cases ok with
+        | false => simp at h
+        | true =>
+          simp only [if_true] at h
+          have hgw := inbound_step1_only_reads_the_approval C cx sc mid sa ph t t1 true hk hv
+          refine ⟨inbound_step1_reads_the_exact_approval C cx sc mid sa ph t t1 hk hv, Or.inl ⟨by simpa using he, ?_⟩⟩
+          cases hm : deployTokenManagerRaw C cx d.tokenId 0 none d.minter t1 with
+          | none => simp [hm] at h
+          | some y =>
+            obtain ⟨addr, t2⟩ := y
+            simp only [hm, run_pure, Option.some.injEq, Prod.mk.injEq, true_and] at h
+            subst h
+            rw [(gws_deployTokenManagerRaw C cx d.tokenId 0 none d.minter).h t1 addr t2 hm, hgw]
+    · simp [hz] at h
+  · -- step 2
+    simp only [he, Bool.false_eq_true, if_false, run_bind, run_require] at h
+    cases hv : gatewayValidate C cx sc mid sa ph t with
+    | none => simp [hv] at h
+    | some x =>
+      obtain ⟨ok, t1⟩ := x
+      simp only [hv] at h
+      cases ok with
+      | false => simp at h
+      | true =>
+        simp only [if_true] at h
+        obtain ⟨ha, hex⟩ := gatewayValidate_true C cx sc mid sa ph t t1 hk hv
+        refine ⟨ha, Or.inr ⟨by simpa using he, ?_⟩⟩
+        -- the rest of the step (minter parsing, the manager's `deployInterchainToken`) keeps `executed`
+        have hrest : GwL (do
+            let minter ← (if d.minter.isEmpty then pure none
+                          else if d.minter.length = 32 then pure (some d.minter) else fail : M (Option Bytes))
+            tmDeployInterchainToken C cx d.tokenId minter d.name d.symbol d.decimals.toNat) := by gwl
+        exact ((hrest.h t1 () t' (by rw [run_bind]; exact h)) (sc, mid)).1 hex
+
+/-- **An executed deploy message drives nothing further** — neither step. -/
+theorem executed_deploy_message_does_nothing (C : Crypto) (cx : ICtx) (sc mid sa ph payload : Bytes) (t : Tx)
+    (d : Abi.Deploy) (hd : Abi.Deploy.decode payload = .ok d) (hk : t.w.kind t.w.its.gateway = some .gateway)
+    (hex : t.w.gw.messages (sc, mid) = .executed) :
+    processDeployInterchainToken C cx sc mid sa ph payload t = none := by
+  cases hr : processDeployInterchainToken C cx sc mid sa ph payload t with
+  | none => rfl
+  | some x =>
+    obtain ⟨u, t'⟩ := x
+    have := (deploy_message_step C cx sc mid sa ph payload t t' d hd hk hr).1
+    rw [hex] at this
+    cases this
+
+/-- **At most one issuance per message**: once the issuing step has run (message executed), in
+    every later state of every history both steps fail for that message. -/
+theorem one_issuance_per_message (C : Crypto) (w : World) (ops : List World.Op) (cx : ICtx)
+    (sc mid sa ph payload : Bytes) (d : Abi.Deploy) (hd : Abi.Deploy.decode payload = .ok d)
+    (hex : w.gw.messages (sc, mid) = .executed) (t : Tx) (ht : t.w.gw = (World.run C w ops).gw)
+    (hk : t.w.kind t.w.its.gateway = some .gateway) :
+    processDeployInterchainToken C cx sc mid sa ph payload t = none :=
+  executed_deploy_message_does_nothing C cx sc mid sa ph payload t d hd hk
+    (by rw [ht]; exact (World.run_life C ops w (sc, mid)).1 hex)
 
 /-- **A zero-supply deployment without a minter is refused**, and so is naming the service
     itself as minter. -/
